@@ -44,9 +44,41 @@ TrUdp ==
         /\ viol' = viol \cup {V(cl, d) : cl \in UdpViol(u, dg, o)}
   /\ l' = l + 1
 
+\* Relay: `sent` = the datagrams the application sent to the real UDPRelay's socket, back to back (in order);
+\* `fwd` = every (destination, payload) the relay handed to a tunnel; `resps` = responses injected per
+\* tunnel, `replies` = the datagrams the application then received.  Every datagram the reference parses
+\* must have been forwarded exactly once as (its destination, its payload) and nothing else may have been;
+\* UDP promises no order, none is demanded.
+TrRelay ==
+  /\ Is("Relay")
+  /\ LET S == Ev.sent
+         F == Ev.fwd
+         U == [i \in DOMAIN S |-> RefUdp(S[i])]
+         cnt(i) == Cardinality({j \in DOMAIN F : ForwardIs(U[i], S[i], F[j])})
+         pre(i) == "relay:" \o Ev.shape \o ":i=" \o ToString(i) \o ":" \o UdpClass(U[i], S[i])
+         lost == {V("UdpRelayPayload", pre(i)) : i \in {x \in DOMAIN S : U[x].st = "result" /\ ~U[x].lenient /\ cnt(x) = 0}}
+         dup  == {V("UdpRelayDup", pre(i)) : i \in {x \in DOMAIN S : cnt(x) > 1}}
+         spur == {V("UdpRelaySpurious", "relay:" \o Ev.shape \o ":fwd=" \o ToString(j) \o
+                      (IF \E i \in DOMAIN S : DestIs(U[i], F[j]) THEN ":payload-of-no-datagram" ELSE ":destination-of-no-datagram"))
+                    : j \in {y \in DOMAIN F : \A i \in DOMAIN S : ~ForwardIs(U[i], S[i], F[y])}}
+         E == Ev.resps
+         G == Ev.replies
+         rcnt(k) == Cardinality({j \in DOMAIN G : ReplyIs(G[j], E[k])})
+         rep  == {V("UdpRelayReply", "relay:" \o Ev.shape \o ":resp=" \o ToString(k) \o ":matching-replies=" \o ToString(rcnt(k)))
+                    : k \in {x \in DOMAIN E : rcnt(x) # 1}}
+              \cup {V("UdpRelayReply", "relay:" \o Ev.shape \o ":reply=" \o ToString(j) \o ":of-no-response")
+                    : j \in {y \in DOMAIN G : \A k \in DOMAIN E : ~ReplyIs(G[y], E[k])}}
+     IN /\ Assert(\A i, k \in DOMAIN S : (i # k /\ U[i].st = "result" /\ U[k].st = "result") =>
+                      ~(U[i].atyp = U[k].atyp /\ U[i].addr = U[k].addr /\ U[i].port = U[k].port
+                        /\ Rest(S[i], U[i].pay) = Rest(S[k], U[k].pay)),
+                  <<"driver sent two indistinguishable datagrams", Ev.tr>>)
+        /\ viol' = viol \cup lost \cup dup \cup spur \cup rep
+                        \cup (IF Ev.panic THEN {V("Panic", "relay:" \o Ev.shape)} ELSE {})
+  /\ l' = l + 1
+
 TrEnd == /\ Is("End") /\ EmitVerdict
          /\ l' = l + 1 /\ viol' = {}
 
-Next == TrHs \/ TrUdp \/ TrEnd
+Next == TrHs \/ TrUdp \/ TrRelay \/ TrEnd
 Spec == Init /\ [][Next]_vars
 =============================================================================
